@@ -4,14 +4,15 @@
 
 package randomseed
 
-// sha256 / byte shuffling is outside the verifier's subset: the seed derivation is an uninterpreted function of the
-// previous signature (trusted: body not verified; only its determinism is used).
+// The value computed by sha256 / the byte shuffling is outside the verifier's subset: that the seed is a function of the
+// previous signature only is an assumed clause (A-SEED); the body itself is verified for safety (every index into the
+// digest in range, the slice handed to binary.LittleEndian.Uint64 at least 8 bytes long).
 //@ func CalculateRandomSeed
-//@   trusted
+//@   props C03 C12
 //@   pure
-//@   ensures result == SeedOf(signature)
+//@   assume [A-SEED.the-seed-is-a-function-of-the-previous-signature] result == SeedOf(signature)
 
 //@ func RandomSeedToBytes
-//@   trusted
+//@   props C03 C12
 //@   pure
-//@   ensures result == SeedBytes(randomSeed) && !isnil(result)
+//@   assume [A-SEED.the-decimal-rendering-is-a-function-of-the-seed] result == SeedBytes(randomSeed) && !isnil(result)
